@@ -999,7 +999,7 @@ func (p *Core) closeResources(newConf *conf.Conf) {
 		newConf.RTSPEncryption != currentConf.RTSPEncryption ||
 		newConf.RTSPAddress != currentConf.RTSPAddress ||
 		!reflect.DeepEqual(newConf.RTSPAuthMethods, currentConf.RTSPAuthMethods) ||
-		newConf.RTSPUDPReadBufferSize != currentConf.RTSPUDPReadBufferSize ||
+		!reflect.DeepEqual(newConf.RTSPUDPReadBufferSize, currentConf.RTSPUDPReadBufferSize) ||
 		newConf.DumpPackets != currentConf.DumpPackets ||
 		newConf.UDPReadBufferSize != currentConf.UDPReadBufferSize ||
 		newConf.ReadTimeout != currentConf.ReadTimeout ||
@@ -1023,8 +1023,13 @@ func (p *Core) closeResources(newConf *conf.Conf) {
 		newConf.RTSP != currentConf.RTSP ||
 		newConf.RTSPEncryption != currentConf.RTSPEncryption ||
 		newConf.RTSPSAddress != currentConf.RTSPSAddress ||
+		newConf.SRTPAddress != currentConf.SRTPAddress ||
+		newConf.SRTCPAddress != currentConf.SRTCPAddress ||
+		newConf.MulticastIPRange != currentConf.MulticastIPRange ||
+		newConf.MulticastSRTPPort != currentConf.MulticastSRTPPort ||
+		newConf.MulticastSRTCPPort != currentConf.MulticastSRTCPPort ||
 		!reflect.DeepEqual(newConf.RTSPAuthMethods, currentConf.RTSPAuthMethods) ||
-		newConf.RTSPUDPReadBufferSize != currentConf.RTSPUDPReadBufferSize ||
+		!reflect.DeepEqual(newConf.RTSPUDPReadBufferSize, currentConf.RTSPUDPReadBufferSize) ||
 		newConf.DumpPackets != currentConf.DumpPackets ||
 		newConf.UDPReadBufferSize != currentConf.UDPReadBufferSize ||
 		newConf.ReadTimeout != currentConf.ReadTimeout ||
